@@ -40,7 +40,7 @@ func main() {
 	fs.StringVar(&o.verif, "verif", "/verif", "verification directory")
 	fs.BoolVar(&o.mirror, "mirror", false, "prefer the contract mirror under /verif/contracts/mirror over the files in the repository")
 	fs.BoolVar(&o.verbose, "v", false, "verbose")
-	fs.IntVar(&o.timeout, "timeout", 0, "per-obligation solver timeout in seconds (default 10 quick / 60 thorough)")
+	fs.IntVar(&o.timeout, "timeout", 0, "per-obligation solver timeout in seconds (default 30 quick / 120 thorough; obligations of the unchanged tree need at most ~7 s, the margin absorbs a slower or loaded machine)")
 	fs.StringVar(&o.dumpDir, "dump", "", "write every query to this directory")
 	fs.BoolVar(&o.noReplay, "no-replay", false, "do not run replays")
 	fs.BoolVar(&o.noEvidence, "no-evidence", false, "do not (re)write the evidence file (used when checking deliberately broken trees)")
@@ -61,9 +61,9 @@ func main() {
 		o.seed, _ = strconv.Atoi(s)
 	}
 	if o.timeout == 0 {
-		o.timeout = 10
+		o.timeout = 30
 		if o.tier == "thorough" {
-			o.timeout = 60
+			o.timeout = 120
 		}
 	}
 	defer cleanupScratch()
@@ -559,6 +559,15 @@ func report(p *Prog, cr *checkResult, o *options, wall float64) int {
 		suffix := " no-failing-input-found"
 		if !o.noReplay && ob.Result.Answer == "sat" {
 			if rr := tryReplay(p, ob, model, o); rr != nil {
+				content["replay"] = rr
+				if rr.Reproduced {
+					suffix = ""
+				}
+			}
+		} else if !o.noReplay && ob.FuncKey != "" {
+			// no model (quantified goal: the solvers answer unknown): a driver may still carry a built-in witness for
+			// its function and try it on the real code
+			if rr := tryReplayNoModel(p, ob, o); rr != nil {
 				content["replay"] = rr
 				if rr.Reproduced {
 					suffix = ""
